@@ -8,8 +8,40 @@ from pv.nat import lib
 from pv.symspec_native import native_env, native_eval
 
 
+def _derived(target):
+    import ast
+    from pv import source_derive
+    base, _, what = target.partition('#')
+    kind, _, rest = base.partition(':')
+    if kind == 'repo':
+        relpath, _, qual = rest.partition(':')
+        mod = importlib.import_module('excel2pycl.src.' + relpath[:-3].replace('/', '.'))
+        import inspect
+        tree = ast.parse(inspect.getsource(mod))
+        parts = qual.split('.')
+        ns = dict(vars(mod))
+    else:
+        text = lib.render_runtime_text() if kind == 'runtime' else open(lib.abstract_class.__globals__['__file__']).read()
+        tree = ast.parse(text)
+        parts = (['ExcelInPython'] if kind == 'runtime' else ['AbstractExcelInPython']) + rest.split('.')
+        ns = {}
+        exec(compile(text, '<rt>', 'exec'), ns)
+    body = tree.body
+    node = None
+    for p_ in parts:
+        node = next(n for n in body if isinstance(n, (ast.FunctionDef, ast.ClassDef)) and n.name == p_)
+        body = node.body
+    new = source_derive.derive(node, what)
+    m = ast.Module(body=[new], type_ignores=[])
+    ast.fix_missing_locations(m)
+    exec(compile(m, '<derived>', 'exec'), ns)
+    return ns[new.name], None
+
+
 def resolve(target, self_val=None):
     """-> (callable taking the non-self args, class or None)"""
+    if '#' in target:
+        return _derived(target)
     kind, _, rest = target.partition(':')
     if kind == 'repo':
         relpath, _, qual = rest.partition(':')
